@@ -61,6 +61,23 @@ def run_prop(ctx: core.Ctx) -> None:
     long_ = sc.judge_programs(ctx, uniq, 'long')
     total += len(long_)
     sc.replay(ctx, long_, checks=checks, namemaps=(qn if quick else tn)[:2], what='composed-long', layouts=layouts)
+    if ctx.prop == 'C04':
+        # "both engines where available": the same frame condition on the Fortran engine (gfortran + the ctypes stand-in of C07),
+        # with non-finite inputs and every errors= policy, on a sample of the programs of the common expression subset
+        import random as _random
+        frecs = [r for r in sc.emit_layer(ctx, 'fortran_small') if r['reject'] == 'none']
+        _random.Random(ctx.seed).shuffle(frecs)
+        frecs = frecs[: (96 if quick else 1200)]
+        workdir = str(core.subdir('fortran-frame'))
+        outs = core.run_workers('harness.replay_fortran', [{'records': ch, 'workdir': workdir, 'seed': ctx.seed, 'base': i * 100000, 'namemap': 'plain',
+                                                            'mode': 'frame'} for i, ch in enumerate(core.chunks(frecs, core.NCPU))])
+        ctx.evaluations += sum(o['n'] for o in outs)
+        ctx.extra.setdefault('replayed', {})['fortran-engine-frame'] = {'programs': sum(o['distinct'] for o in outs), 'executions': sum(o['n'] for o in outs)}
+        if sum(o['n'] for o in outs) == 0:
+            raise core.MachineryError('no program was compiled for the Fortran-engine frame check (is gfortran available?)')
+        for o in outs:
+            for mm in o['mismatches']:
+                ctx.mismatch(mm['key'], {'module': 'Script', 'direction': 'spec->code', 'engine': 'fortran', **mm})
     ctx.exhaustive = False
     ctx.extra['programs'] = total
     ctx.extra['disagreements_checked'] = sum(ctx._violation_keys.values()) + sum(ctx.known_seen.values())
